@@ -196,6 +196,29 @@ def sparse_states(size):
                 yield tuple(sorted(combo))
 
 
+def spine_states(tier):
+    """maximal merge cascades: for a descent path P down to resolution R, the siblings of every ancestor of P below `top` together with
+    P itself form an antichain that compacts to `top` in R - res(top) cascading passes (30 passes from resolution 29 to the world cell);
+    with one sibling removed at level m the cascade has to stop exactly below m"""
+    pats = [(0, 0, (0,)), (11, 4, (3,)), (6, 2, (1, 2)), (3, 1, (2, 0, 3, 1))]
+    if tier != 'quick':
+        pats += [(5, 3, (3, 0)), (9, 0, (1,)), (2, 4, (2,)), (7, 1, (0, 3, 3, 1, 2))]
+    for f, n, pat in pats:
+        full = (f, n) + tuple(pat[i % len(pat)] for i in range(28))          # a resolution-29 cell
+        for top_len in (0, 1, 2, 6):                                         # cascade ends in the world cell, a face, a quintant, a res-5 cell
+            for plen in range(top_len + 1, 31):
+                P = full[:plen]
+                levels = {}
+                for L in range(top_len + 1, plen + 1):
+                    levels[L] = [sib for sib in rm.children(P[:L - 1]) if sib != P[:L]]
+                state = [P] + [x for L in levels for x in levels[L]]
+                yield tuple(sorted(state)), (('spine', P),)
+                ms = sorted(levels) if tier != 'quick' else sorted({min(levels), (min(levels) + max(levels)) // 2, max(levels)})
+                for m in ms:
+                    drop = levels[m][len(levels[m]) // 2]
+                    yield tuple(sorted(x for x in state if x != drop)), (('spine', P), ('remove', drop))
+
+
 def explore(which, tier, acc):
     """BFS in this process, oracle evaluation in the pool; returns (states, bfs transitions)"""
     import multiprocessing
@@ -242,6 +265,20 @@ def explore(which, tier, acc):
         total_states += nsp
         acc.n['sparse_antichains'] = nsp
         acc.notes.append(f'all {nsp} antichains of <= {size} cells over a {len(SPARSE_MENU)}-cell menu (faces 0/1/6/11, all segments of faces 0 and 6, their first/last children, a res-3 sibling group)')
+        # third family: maximal cascades (up to 30 merging passes in one call)
+        batch = []
+        nspine = 0
+        for st, tr in spine_states(tier):
+            nspine += 1
+            batch.append((st, tr))
+            if len(batch) >= 60:
+                flush(batch)
+                batch = []
+        if batch:
+            flush(batch)
+        total_states += nspine
+        acc.n['cascade_spines'] = nspine
+        acc.notes.append(f'{nspine} cascade spines: sibling staircases along {4 if tier == "quick" else 8} descent paths, every depth 1..30 passes, ending in the world cell / a face / a quintant / a res-5 cell, complete and with one sibling removed')
         for p in pending:
             acc.merge(p.get())
     acc.n['lattice_states'] = total_states
